@@ -7,10 +7,10 @@
    from the interface's, and the document selects a field of that name. *)
 From ApolloVerif Require Import Base.Chars Ast.Ast Schema.Model Run.Json Run.TypedDoc Run.Execute Run.ExecTop.
 
-Fixpoint ty_eqb (a b : ty) : bool :=
+Fixpoint ek_ty_eqb (a b : ty) : bool :=
   match a, b with
   | TNamed x, TNamed y | TNonNullNamed x, TNonNullNamed y => streq x y
-  | TList x, TList y | TNonNullList x, TNonNullList y => ty_eqb x y
+  | TList x, TList y | TNonNullList x, TNonNullList y => ek_ty_eqb x y
   | _, _ => false
   end.
 
@@ -24,7 +24,7 @@ Definition ek_refined_fields (s : schema) : list str :=
           | Some (EInterface _ _ _ _ ifields _) =>
               flat_map (fun f =>
                 match td_find_fd (fd_name (c_val f)) ofields with
-                | Some od => if ty_eqb (fd_ty od) (fd_ty (c_val f)) then [] else [fd_name (c_val f)]
+                | Some od => if ek_ty_eqb (fd_ty od) (fd_ty (c_val f)) then [] else [fd_name (c_val f)]
                 | None => []
                 end) ifields
           | _ => []
@@ -51,26 +51,26 @@ Definition known_covariant (s : schema) (d : rdoc) : bool :=
    SuspectedValidationBug error although the document is valid.
    known_nested_var d (an over-approximation used only to label such errors): some argument value of the document
    is a list or object literal that contains a variable. *)
-Fixpoint value_has_var (v : value) : bool :=
+Fixpoint ek_value_has_var (v : value) : bool :=
   match v with
   | VVar _ => true
-  | VList l => (fix any (l : list value) : bool := match l with [] => false | x :: r => value_has_var x || any r end) l
+  | VList l => (fix any (l : list value) : bool := match l with [] => false | x :: r => ek_value_has_var x || any r end) l
   | VObject fs => (fix any (l : list (str * value)) : bool :=
-                     match l with [] => false | (_, x) :: r => value_has_var x || any r end) fs
+                     match l with [] => false | (_, x) :: r => ek_value_has_var x || any r end) fs
   | _ => false
   end.
 
-Definition arg_nested_var (v : value) : bool :=
+Definition ek_arg_nested_var (v : value) : bool :=
   match v with
-  | VList l => existsb value_has_var l
-  | VObject fs => existsb (fun kv => value_has_var (snd kv)) fs
+  | VList l => existsb ek_value_has_var l
+  | VObject fs => existsb (fun kv => ek_value_has_var (snd kv)) fs
   | _ => false
   end.
 
 Fixpoint rs_nested_var (x : rsel) : bool :=
   match x with
   | RsField _ _ args _ _ l =>
-      existsb (fun a => arg_nested_var (snd a)) args ||
+      existsb (fun a => ek_arg_nested_var (snd a)) args ||
       (fix any (l : list rsel) : bool := match l with [] => false | y :: r => rs_nested_var y || any r end) l
   | RsInline _ _ l =>
       (fix any (l : list rsel) : bool := match l with [] => false | y :: r => rs_nested_var y || any r end) l
